@@ -511,3 +511,10 @@ package locate
 //@   ensures empty: len(ranges) == 0 ==> !result
 //@   ensures none: len(ranges) > 0 && len(regionsInfo) == 0 ==> result
 //@   ensures first: len(ranges) > 0 && len(regionsInfo) > 0 && regionsInfo[0] != nil && (regionsInfo[0].Meta == nil || regionsInfo[0].Meta.StartKey > ranges[0].StartKey) ==> result
+
+// Ghost: rpcErrAtReturn - the RPC error the sender holds at the moment SendReq returns (a definitional snapshot, so that
+// callers can state "what the send left behind is still there" at later points).
+//@ ghost field RegionRequestSender.rpcErrAtReturn error
+//@ func (*RegionRequestSender) SendReq
+//@   modifies-also RegionRequestSender.rpcErrAtReturn of s
+//@   postulate snapshot: s.rpcErrAtReturn == s.rpcError
